@@ -17,6 +17,18 @@ def kind_of(sx):
     return m.group(1) if m else None
 
 
+def known_printer_issue(O, code_in, content):
+    """swc's printer drops the blank between a legacy decimal literal with a leading zero (08, 09: sloppy mode) and the dot of
+    a member access: the input has `08 .m`, the output `08.m` (known finding, third-party)."""
+    kk = [k for k in C.known_for("C08") if k.get("class") == "printer-leading-zero-literal-member"]
+    if kk and re.search(r"(?<![\w.$])0\d*[89]\d*\s+\.\s*[A-Za-z_$]", code_in) and re.search(r"(?<![\w.$])0\d*[89]\d*\.[A-Za-z_$]", content):
+        line = "%s: %s" % (kk[0]["id"], kk[0]["what"])
+        if line not in O.known:
+            O.known.append(line)
+        return True
+    return False
+
+
 def cases(O):
     n = 400 if O.tier == "quick" else 9000
     opts = {"reparse": True}
@@ -60,6 +72,7 @@ def run(O, P):
     cs = cases(O)
     results = C.run_cases(cs, WHAT, "c08")
     jobs, meta = [], []
+    case_out = {}
     stats = collections.Counter()
     for case, r, calls in results:
         for cin, cout, m in calls:
@@ -72,6 +85,8 @@ def run(O, P):
             content = cout["result"]["content"]
             kin = kind_of(cout.get("ast_in"))
             if cout.get("reparse_error"):
+                if known_printer_issue(O, cin["code"], content):
+                    continue
                 bad("the rewriter's own parser rejects the output: " + cout["reparse_error"][:300]); continue
             krep = kind_of(cout.get("ast_reparsed"))
             if kin and krep and kin != krep:
@@ -87,6 +102,7 @@ def run(O, P):
             kind = "module" if kin == "Module" else "script"
             jobs.append({"id": "in:" + case["id"], "code": cin["code"], "kind": kind})
             jobs.append({"id": "out:" + case["id"], "code": content, "kind": kind})
+            case_out[case["id"]] = content
             meta.append((case, kind))
     res = vlib.run_node("node_parse.js", jobs, args=[], timeout=1800) if jobs else []
     if res is None:
@@ -100,6 +116,10 @@ def run(O, P):
                 stats["input-rejected-by-v8"] += 1
                 continue
             if not rout["ok"]:
+                # known finding: swc's printer drops the blank between a legacy decimal literal with a leading zero (08, 09: sloppy
+                # mode) and the dot of a member access
+                if known_printer_issue(O, case["calls"][0]["code"], case_out.get(case["id"], "")):
+                    continue
                 O.violation("V8 accepts the input as a %s but rejects the output: %s" % (kind, rout["error"]), {"case": C.one_call_case(case)})
                 continue
             stats["v8-accepts-output-" + kind] += 1
